@@ -377,6 +377,113 @@ theorem findTerminator_total (l : Bytes) :
     stripCommentsM l = stripComments l ∧ delAfterFirstSlashM l = delAfterFirstSlash l :=
   ⟨stripCommentsM_eq l, delAfterFirstSlashM_eq l⟩
 
+/-! ### second round: the slow path of `clean` terminates and keeps the newline invariant -/
+
+theorem getline_rest_lt (input line rest : Bytes) (h : getline input = some (line, rest)) :
+    rest.length < input.length := by
+  cases input with
+  | nil => simp [getline] at h
+  | cons c r =>
+    simp only [getline, Option.some.injEq, Prod.mk.injEq] at h
+    obtain ⟨_, hr⟩ := h
+    subst hr
+    have h1 := (List.dropWhile_suffix (· != 10) (l := c :: r)).length_le
+    cases hd : (c :: r).dropWhile (· != 10) with
+    | nil => simp
+    | cons d t =>
+      rw [hd] at h1
+      simp only [List.drop_succ_cons, List.drop_zero, List.length_cons] at h1 ⊢
+      omega
+
+/-- the fuel of the slow path of `clean` never runs out: every round consumes at least one
+byte, so any two fuels above the input length give the same result (the `while (true)` loop
+of the C++ terminates). -/
+theorem cleanSlow_fuel (kws : List (Bytes × Bytes)) : ∀ (f1 f2 : Nat) (input : Bytes),
+    input.length < f1 → input.length < f2 → cleanSlow kws f1 input = cleanSlow kws f2 input := by
+  intro f1
+  induction f1 with
+  | zero => intro f2 input h; omega
+  | succ f1 ih =>
+    intro f2 input h1 h2
+    cases f2 with
+    | zero => omega
+    | succ f2 =>
+      simp only [cleanSlow]
+      -- the input left after an optional copied block is no longer than the input
+      have key : ∀ (copied input1 : Bytes), input1.length ≤ input.length →
+          (match getline input1 with
+            | none => copied
+            | some (line, rest) => copied ++ cleanLine line ++ [10] ++ cleanSlow kws f1 rest) =
+          (match getline input1 with
+            | none => copied
+            | some (line, rest) => copied ++ cleanLine line ++ [10] ++ cleanSlow kws f2 rest) := by
+        intro copied input1 hle
+        cases hg : getline input1 with
+        | none => rfl
+        | some lr =>
+          obtain ⟨line, rest⟩ := lr
+          have := getline_rest_lt input1 line rest hg
+          simp only
+          rw [ih f2 rest (by omega) (by omega)]
+      cases hcs : codeStart kws input with
+      | none => exact key [] input (Nat.le_refl _)
+      | some kw =>
+        simp only
+        cases hf : findSub kw.2 input with
+        | none => exact key input [] (by simp)
+        | some p => exact key _ _ (by simp)
+
+theorem endsNL_append_of (a b : Bytes) (hb : EndsNL b) : EndsNL (a ++ b) := by
+  unfold EndsNL at *
+  rw [List.getLast?_append, hb]; rfl
+
+/-- the slow path, too, returns a buffer that is empty or ends in '\n' (every piece it
+writes ends in '\n'; a block without its end string is the rest of the input, which does). -/
+theorem cleanSlow_endsNL (kws : List (Bytes × Bytes)) : ∀ (fuel : Nat) (input : Bytes),
+    input = [] ∨ EndsNL input → cleanSlow kws fuel input = [] ∨ EndsNL (cleanSlow kws fuel input) := by
+  intro fuel
+  induction fuel with
+  | zero => intro input _; left; rfl
+  | succ fuel ih =>
+    intro input hin
+    simp only [cleanSlow]
+    have key : ∀ (copied input1 : Bytes), (copied = [] ∨ EndsNL copied) → (input1 = [] ∨ EndsNL input1) →
+        (match getline input1 with
+          | none => copied
+          | some (line, rest) => copied ++ cleanLine line ++ [10] ++ cleanSlow kws fuel rest) = [] ∨
+        EndsNL (match getline input1 with
+          | none => copied
+          | some (line, rest) => copied ++ cleanLine line ++ [10] ++ cleanSlow kws fuel rest) := by
+      intro copied input1 hc hi
+      rcases hi with h0 | hnl
+      · subst h0; simpa [getline] using hc
+      · obtain ⟨line, rest, hg, _, _, hrest⟩ := getline_endsNL input1 hnl
+        rw [hg]
+        simp only
+        right
+        rcases ih rest hrest with h0 | hnl'
+        · rw [h0, List.append_nil]
+          exact endsNL_append_of _ [10] (by decide)
+        · exact endsNL_append_of _ _ hnl'
+    cases hcs : codeStart kws input with
+    | none => exact key [] input (Or.inl rfl) hin
+    | some kw =>
+      simp only
+      cases hf : findSub kw.2 input with
+      | none => exact key input [] hin (Or.inl rfl)
+      | some p =>
+        refine key _ _ (Or.inr (endsNL_append_of _ [10] (by decide))) ?_
+        rcases hin with h0 | hnl
+        · subst h0; left; simp
+        · exact endsNL_drop input _ hnl
+
+theorem clean_endsNL (kws : List (Bytes × Bytes)) (input : Bytes) (h : input = [] ∨ EndsNL input) :
+    clean kws input = [] ∨ EndsNL (clean kws input) := by
+  unfold clean
+  split
+  · exact cleanSlow_endsNL kws _ input h
+  · exact fastClean_endsNL input
+
 end OpmVerif.Lex
 
 namespace OpmVerif.Tok
